@@ -348,6 +348,113 @@ def parameter_sets(draw, fmt: str | None, na_labels: bool = False):
 
 
 # ------------------------------------------------------------------------------------------
+# histories of parameter files (several sets, several paths, overwriting, second loads)
+
+#: file stems relative to the temporary directory (two of them share the base name)
+HISTORY_STEMS = ["parameters", "sub/parameters", "other"]
+
+
+def _reoption(draw, case: dict, source: dict) -> dict:
+    """Save / load options of a derived set are drawn anew (a path can be written with different options over time)."""
+    case["explicit_format"] = draw(st.booleans())
+    if "sep" in source:
+        case["sep"] = draw(st.sampled_from([",", ",", ";", "\t", "|"]))
+    if "replace_inf" in source:
+        case["replace_inf"] = draw(st.sampled_from([True, True, False]))
+    return case
+
+
+def _subset_of(draw, source: dict) -> dict | None:
+    """A reduced model: some parameters of ``source`` dropped (and every expression that referred to a dropped one)."""
+    params = source["params"]
+    if len(params) < 2:
+        return None
+    keep = [draw(st.booleans()) for _ in params]
+    if all(keep):
+        keep[draw(st.integers(0, len(params) - 1))] = False
+    changed = True
+    while changed:
+        changed = False
+        kept = {p["label"] for p, k in zip(params, keep) if k}
+        for i, p in enumerate(params):
+            if keep[i] and p["expression"] is not None and any(r not in kept for r in references(p["expression"])):
+                keep[i] = False
+                changed = True
+    out = [dict(p) for p, k in zip(params, keep) if k]
+    if not out:
+        return None
+    kept = {p["label"] for p in out}
+    case = dict(source, params=out, stale=[list(x) for x in source["stale"] if x[0] in kept])
+    return _reoption(draw, case, source)
+
+
+def _edited(draw, source: dict) -> dict:
+    """The same labels with other values / options (cells that were filled become empty and the other way round)."""
+    out = []
+    for p in source["params"]:
+        q = dict(p)
+        if q["expression"] is None:
+            v = draw(moderate_floats())
+            if q["non_negative"]:
+                v = abs(v)
+            if draw(st.booleans()):
+                q["minimum"] = -math.inf
+            if draw(st.booleans()):
+                q["maximum"] = math.inf
+            q["value"] = float(min(max(v, q["minimum"]), q["maximum"]))
+            if draw(st.booleans()):
+                q["vary"] = not q["vary"]
+        if draw(st.booleans()):
+            q["standard_error"] = math.nan if not math.isnan(q["standard_error"]) else abs(draw(moderate_floats()))
+        out.append(q)
+    return _reoption(draw, dict(source, params=out, stale=[]), source)
+
+
+@st.composite
+def histories(draw, fmt: str | None = None):
+    """Several parameter sets written to / read from a few paths of one directory, as a list of steps.
+
+    Steps: ``save`` (set i -> path j, allow_overwrite), ``load`` (path j), ``resave`` (the object last loaded from
+    path j -> path k, allow_overwrite; k may be j, and path j may have been overwritten in between).  Sets are independent draws, reduced versions (fewer rows) or
+    edited versions (same rows, other cells) of an earlier set, so that a path is overwritten with smaller, larger and
+    equally sized tables.
+    """
+    if fmt is None:
+        fmt = draw(st.sampled_from(["csv", "tsv", "xlsx", "ods"]))
+    sets = [draw(parameter_sets(fmt))]
+    for _ in range(draw(st.integers(1, 2))):
+        kind = draw(st.sampled_from(["independent", "subset", "subset", "edited"]))
+        source = sets[draw(st.integers(0, len(sets) - 1))]
+        derived = _subset_of(draw, source) if kind == "subset" else _edited(draw, source) if kind == "edited" else None
+        sets.append(derived if derived is not None else draw(parameter_sets(fmt)))
+    if draw(st.booleans()):
+        sets.sort(key=lambda c: -len(c["params"]))  # larger tables first: later saves shrink the file
+    n_paths = draw(st.sampled_from([1, 2, 2, 3]))
+    stems = draw(st.permutations(HISTORY_STEMS))[:n_paths]
+    written, loaded, steps = set(), set(), []
+    for _ in range(draw(st.integers(2, 7))):
+        op = draw(st.sampled_from(["save", "save", "save", "load", "load", "resave", "resave"]))
+        if op == "load" and written:
+            j = draw(st.sampled_from(sorted(written)))
+            steps.append({"op": "load", "path": j})
+            loaded.add(j)
+        elif op == "resave" and loaded:
+            j = draw(st.sampled_from(sorted(loaded)))
+            k = draw(st.integers(0, n_paths - 1))
+            overwrite = draw(st.sampled_from([True, True, True, False]))
+            steps.append({"op": "resave", "from": j, "path": k, "overwrite": overwrite})
+            if overwrite or k not in written:
+                written.add(k)
+        else:
+            k = draw(st.integers(0, n_paths - 1))
+            overwrite = draw(st.sampled_from([True, True, True, False]))
+            steps.append({"op": "save", "set": draw(st.integers(0, len(sets) - 1)), "path": k, "overwrite": overwrite})
+            if overwrite or k not in written:
+                written.add(k)
+    return {"sub": "history", "fmt": fmt, "sets": sets, "paths": [f"{stem}.{fmt}" for stem in stems], "steps": steps}
+
+
+# ------------------------------------------------------------------------------------------
 # specifications (yml / dict / list)
 
 #: never equal to an automatic number of a group of <= 5 items ("1".."5")
